@@ -374,7 +374,7 @@ SHORTHAND_STEPS = {
     "6/7": _MAJ + [_6, _b7], "67": _MAJ + [_6, _b7], "6/9": _MAJ + [_6, _9], "69": _MAJ + [_6, _9],
     "9": _MAJ + [_b7, _9], "add9": _MAJ + [_b7, _9], "7b9": _MAJ + [_b7, _b9], "7#9": _MAJ + [_b7, _s9],
     "M9": _MAJ + [_M7, _9], "m9": _MIN + [_m7, _9],
-    "7#11": _MAJ + [_b7, _s11], "m11": _MIN + [_m7, _11],
+    "7#11": _MAJ + [_b7, _s11], "m11": _MIN + [_m7, _11], "M11": _MAJ + [_M7, _9, _11],
     "M13": _MAJ + [_M7, _9, _13], "m13": _MIN + [_m7, _9, _13], "13": _MAJ + [_b7, _9, _13],
     "add13": _MAJ + [_b7, _9, _13],
     "7b5": [(2, 4), (4, 6), _b7], "hendrix": _MAJ + [_b7, (2, 3)], "7b12": _MAJ + [_b7, (2, 3)],
@@ -638,3 +638,37 @@ def lower_letter(c):
 def ly_marks(octave, process_octaves):
     """number of octave marks: one ' per octave above 3, one , per octave below 3"""
     return (0 if not process_octaves else octave - 3 if octave > 3 else 3 - octave)
+
+
+@primitive
+def is_fresh(v):
+    """(solver side: allocated by the call under contract, not aliased to module state or arguments).
+    At run time aliasing is checked by the drivers (mutate the result, call again); here it holds vacuously."""
+    return True
+
+
+# ------------------------------------------------------------------ diatonic harmony
+
+@primitive
+def diatonic_triads(key):
+    n = key_notes(key)
+    return [[n[i], n[(i + 2) % 7], n[(i + 4) % 7]] for i in range(7)]
+
+
+@primitive
+def diatonic_sevenths(key):
+    n = key_notes(key)
+    return [[n[i], n[(i + 2) % 7], n[(i + 4) % 7], n[(i + 6) % 7]] for i in range(7)]
+
+
+NUMERALS = ("I", "II", "III", "IV", "V", "VI", "VII")
+NUMERAL_SEMIS = (0, 2, 4, 5, 7, 9, 11)
+
+
+def numeral_index(r):
+    return (0 if r == "I" else 1 if r == "II" else 2 if r == "III" else 3 if r == "IV" else 4 if r == "V"
+            else 5 if r == "VI" else 6 if r == "VII" else -1)
+
+
+def numeral_semis(i):
+    return (0 if i == 0 else 2 if i == 1 else 4 if i == 2 else 5 if i == 3 else 7 if i == 4 else 9 if i == 5 else 11)
